@@ -22,8 +22,14 @@ and at the parse entry point (harness mode `ast` = the verif hook parse_source =
 parser_logic::parse_file): sources with the same reference-lexer image (the
 source, the source with its comments blanked by the extracted reference side,
 the source with its comment interiors overwritten by code-like text) must give
-the identical AST dump / error report — the observable side of
-Model.ParseEntry and the C05_parse_file_* theorems."""
+the identical AST dump / error report.  This comparison — not a theorem — is
+what ties "nothing downstream of parse_file sees a comment" to the code: the
+statements about Model.ParseEntry (parser as an arbitrary function of the
+pre-processed text) are parametricity facts, kept as lemmas in
+Proofs.ParseEntryProofs and not counted as obligations.  Consumers of the
+source that sit behind parse_file in OTHER functions (parser/src/lib.rs
+parse_file: the FileLibrary entry, check_compiler_version, the include stack)
+are reached by the CLI runs only."""
 import concurrent.futures
 import glob
 import json
@@ -675,7 +681,8 @@ def parse_entry(ctx, harness, model, n_templates, n_streams):
     its comments blanked (computed by the extracted reference side:
     LexSpec.blank_comments) and on s with its comment interiors overwritten by
     code-like text: the three have the same lexer image (checked with the
-    extracted lex_spec, it is the hypothesis of C05_parse_file_sees_only_lexed_text),
+    extracted lex_spec — equality of the images is evaluated on every source and counted in
+    stats["equal_image_pairs_checked"]; a pair that does not meet it is reported as broken machinery),
     so the complete answers — AST with every Meta, or error report with its
     label ranges — must be identical.  When the image is an error, the answer
     must be the unclosed-comment report on the range the reference lexer gives."""
@@ -693,7 +700,8 @@ def parse_entry(ctx, harness, model, n_templates, n_streams):
     ast_b = [split_res(x)[1] for x in common.run_lines(harness, ["ast"], blines, shards=common.NPROC)]
     problems, machinery = [], []
     stats = {"sources": len(texts), "templates": n_templates, "token_streams": n_streams, "parsed": 0, "parsed_with_comment": 0, "syntax_error": 0, "unclosed": 0, "panic": 0,
-             "overwritten_differs": 0, "blanked_differs": 0, "with_version": 0, "with_main": 0, "with_include": 0}
+             "overwritten_differs": 0, "blanked_differs": 0, "with_version": 0, "with_main": 0, "with_include": 0,
+             "equal_image_pairs_checked": 0, "asts_compared": 0, "hook": "parser::verif::parse_source (= parser_logic::parse_file), harness `preprocess ast`"}
     for i, t in enumerate(texts):
         if spec_o[i] != spec[i]:
             machinery.append({"what": "overwrite_comments changed the lexer image", "text": t, "variant": over[i]})
@@ -702,6 +710,8 @@ def parse_entry(ctx, harness, model, n_templates, n_streams):
             machinery.append({"what": "blank_comments changed the lexer image (contradicts lex_blank_invariant)", "text": t})
             continue
         has_comment = bool(py_comments(t))
+        stats["equal_image_pairs_checked"] += 2 if spec[i].startswith("ok") else 1
+        stats["asts_compared"] += 2
         if over[i] != t:
             stats["overwritten_differs"] += 1
         if blines[i] != lines[i]:
@@ -911,6 +921,17 @@ def run(ctx, proofs):
                             "answers (AST incl. every Meta start/end/location/file id, version, includes, main component; or the "
                             "report with id, message, label ranges) must be identical; a source is counted in parsed_with_comment "
                             "when it contains at least one comment and parses",
+        "parse_entry_role": "this comparison is the ONLY tie between the claim `nothing downstream of parser_logic::parse_file sees a "
+                            "comment` and the code: hook parser::verif::parse_source, %d sources x 3 variants (%d AST / error-report "
+                            "comparisons, %d of the sources parse and contain a comment). The corresponding statements about "
+                            "Model.ParseEntry are parametricity facts of the model (the parser is a function of the pre-processed "
+                            "text only) and are lemmas in Proofs.ParseEntryProofs, not obligations (22 obligations, all about "
+                            "`preprocess`)" % (entry_stats["sources"], entry_stats["asts_compared"], entry_stats["parsed_with_comment"]),
+        "behind_parse_file": "consumers of the source behind parser_logic::parse_file that live in other functions — "
+                             "parser/src/lib.rs parse_file: FileLibrary::add_file (raw content, used to resolve positions), "
+                             "check_compiler_version, FileStack::add_include — are covered by the metamorphic CLI runs only "
+                             "(e2e_cli_runs), not by the hook and not by any theorem; parse_string / parse_definition have no hook "
+                             "(test-only helpers) and are not observed",
         "open_statements": [],
     })
     ctx.assumptions += [
@@ -918,10 +939,12 @@ def run(ctx, proofs):
         "`str::chars`, `char_indices`, `char::len_utf8`, `String::push` behave as list traversal, prefix sums of UTF-8 lengths and append",
         "the rest of the pipeline reads only the pre-processed text and resolves positions against the original file: observed end to end "
         "(metamorphic runs of the CLI on %d generated templates, comments with code-like content on every line), not proved" % n_e2e,
-        "parser_logic.rs parse_file / parse_string have the data flow of Model.ParseEntry (the generated parser gets the output of "
-        "preprocess and nothing else; an unclosed comment returns before the parser runs): observed through the verif hook "
-        "parse_source on %d sources (same lexer image => identical AST dump / error report), not proved; the LALRPOP parser itself "
-        "is a parameter of the theorems" % entry_stats["sources"],
+        "parser_logic.rs parse_file hands the generated parser the output of preprocess and nothing else, and an unclosed comment "
+        "returns before the parser runs: OBSERVED through the verif hook parse_source on %d sources x 3 variants with the same "
+        "reference-lexer image (identical AST dump / error report), not proved — there is no theorem about it (the statements over "
+        "Model.ParseEntry cannot fail and are not obligations); the LALRPOP parser is not modelled" % entry_stats["sources"],
+        "what sits behind parser_logic::parse_file in other functions (parser/src/lib.rs parse_file: version check, include stack, "
+        "FileLibrary entry) is covered by the CLI runs only; parse_string / parse_definition are not observed",
         "string literals are not special for the comment lexer (modelling decision recorded in DESIGN §4 C05; matches the code)",
     ]
 
